@@ -194,6 +194,23 @@ def run(tier):
                     pairs.append((jf["id"], js["id"]))
                     sim_total += 1
         groups.append((ts, {"GOMAXPROCS": str(max(2, Wm))}, jobs, meta))
+    # a source that fails (for good, or once and then recovers): the parallel variant must answer like the sequential one,
+    # (false, error) -- C09 enumerates the fault positions, this is the differential on a handful of them
+    jobs, meta = [], {}
+    for fn in FASTS:
+        s_, sb, items, _ = wf.KINDS[fn]
+        for kind in (["transient", "custom", "parttransient", "temporary", "eof"] if fn == "PeriodDetectFast" or thorough else ["transient"]):
+            for off in sorted({0, sb // 2, sb * (s_ // 2) + 17, sb * (s_ - 1) + 5}) if fn == "PeriodDetectFast" else [sb * 3 + 11]:
+                jid += 1
+                jf = wf.mkjob(jid, fn, policy=rng.choice(["full", "fixed"]), size=4093, rseed=jid, fail_at=off, fail_kind=kind, tag="fault %s@%d" % (kind, off))
+                jid += 1
+                js = wf.mkjob(jid, wf.SEQ_OF[fn], policy="full", rseed=jid, fail_at=off, fail_kind=kind, tag="seq ref fault %s@%d" % (kind, off))
+                js["stream"] = jf["stream"]
+                for j in (jf, js):
+                    jobs.append(j)
+                    meta[j["id"]] = {"cnt": [s_] * items, "hist": [wf.flat(s_)] * items, "facts": {"kind": kind, "off": off, "policy": "fault"}}
+                pairs.append((jf["id"], js["id"]))
+    groups.append((None, None, jobs, meta))
     run.extra["tlc_simulated_schedules_replayed"] = sim_total
     allrows = {}
     allrej = set()
@@ -202,7 +219,7 @@ def run(tier):
         allrows.update(rows)
         allrej.update(rej)
     run.sample({"job": {k: v for k, v in groups[0][2][0].items() if k != "items"}, "plan_item_sample": groups[0][2][0]["items"][:3]})
-    sj = groups[-1][2][0]
+    sj = groups[-2][2][0]
     run.sample({"tlc_schedule_job": {"fn": sj["fn"], "splits_head": sj["reader"]["splits"][:12], "order": sj["order"]}})
     run.extra["gate_timeouts"] = sum(int((allrows.get(j["id"]) or {}).get("gate_timeouts", 0) or 0) for g in groups for j in g[2])
     # differential fast vs sequential
